@@ -151,6 +151,13 @@ pub trait Property: 'static {
     }
     /// Seed-independent systematic scenarios (single/double fault sweeps).
     fn sweeps(tier: Tier) -> Vec<Self::S>;
+    /// Lazily enumerated systematic scenarios (too many to materialise), indices `0 .. enumerated(tier)`.
+    fn enumerated(_tier: Tier) -> u64 {
+        0
+    }
+    fn enumerate(_tier: Tier, _i: u64) -> Self::S {
+        unreachable!()
+    }
     /// Number of seeded random runs.
     fn random_runs(tier: Tier) -> u64;
     fn generate(rng: &mut Rng, tier: Tier) -> Self::S;
@@ -292,16 +299,21 @@ pub struct Batch<P: Property> {
     pub seed: u64,
     pub tier: Tier,
     pub sweeps: Arc<Vec<P::S>>,
+    pub n_enum: u64,
     pub n_random: u64,
 }
 
 impl<P: Property> Batch<P> {
     pub fn new(seed: u64, tier: Tier) -> Self {
-        Batch { seed, tier, sweeps: Arc::new(P::sweeps(tier)), n_random: P::random_runs(tier) }
+        Batch { seed, tier, sweeps: Arc::new(P::sweeps(tier)), n_enum: P::enumerated(tier), n_random: P::random_runs(tier) }
     }
 
     pub fn total(&self) -> u64 {
-        self.sweeps.len() as u64 + self.n_random
+        self.sweeps.len() as u64 + self.n_enum + self.n_random
+    }
+
+    pub fn n_systematic(&self) -> u64 {
+        self.sweeps.len() as u64 + self.n_enum
     }
 
     /// The scenario of run `index` — a pure function of (seed, tier, index).
@@ -309,7 +321,10 @@ impl<P: Property> Batch<P> {
         let ns = self.sweeps.len() as u64;
         if index < ns {
             self.sweeps[index as usize].clone()
+        } else if index < ns + self.n_enum {
+            P::enumerate(self.tier, index - ns)
         } else {
+            let ns = ns + self.n_enum;
             let mut rng = Rng::new(run_seed(self.seed, P::tag(), index - ns));
             P::generate(&mut rng, self.tier)
         }
@@ -373,7 +388,7 @@ impl<P: Property> Batch<P> {
                             let r = run_guarded(&s, &mut obs);
                             watch.slots[w].store(0, Ordering::Release);
                             agg.evaluations += 1;
-                            if index < me.sweeps.len() as u64 {
+                            if index < me.n_systematic() {
                                 agg.sweep_runs += 1
                             } else {
                                 agg.random_runs += 1
